@@ -98,9 +98,15 @@ theorem splitEndingRev_append (r : Txt) : (splitEndingRev r).1 ++ (splitEndingRe
 theorem splitLineEnding_append (l : Txt) : (splitLineEnding l).1 ++ (splitLineEnding l).2 = l := by
   simp [splitLineEnding, splitEndingRev_append]
 
+theorem mapLinesFrom_nil (f : Txt → Txt → Txt) (off : Nat) (ls : List Txt) :
+    mapLinesFrom [] f off ls = (ls.map fun l => f (splitLineEnding l).1 (splitLineEnding l).2).flatten := by
+  induction ls generalizing off with
+  | nil => rfl
+  | cons l ls ih => simp [mapLinesFrom, ih]
+
 theorem mapLines_eq (t : Txt) (f : Txt → Txt → Txt) :
-    mapLines t f = ((splitInclusive t).map fun l => f (splitLineEnding l).1 (splitLineEnding l).2).flatten := by
-  simp [mapLines, List.flatMap_def]
+    mapLines t [] f = ((splitInclusive t).map fun l => f (splitLineEnding l).1 (splitLineEnding l).2).flatten := by
+  simp [mapLines, mapLinesFrom_nil]
 
 /-! ## blank bytes -/
 
@@ -329,11 +335,11 @@ theorem flatten_map_id (ls : List Txt) (G : Txt → Txt) (h : ∀ l ∈ ls, G l 
 def stripLine (p l : Txt) : Txt := (stripPrefix p (body l)).getD (body l) ++ ending l
 def applyLine (p l : Txt) : Txt := if (body l).isEmpty then ending l else p ++ body l ++ ending l
 
-theorem stripBaseIndent_eq (t p : Txt) : stripBaseIndent t p = ((splitInclusive t).map (stripLine p)).flatten := by
+theorem stripBaseIndent_eq (t p : Txt) : stripBaseIndent t p [] = ((splitInclusive t).map (stripLine p)).flatten := by
   simp only [stripBaseIndent, mapLines_eq]; rfl
 
 theorem applyBaseIndent_eq (t p : Txt) (hp : p ≠ []) :
-    applyBaseIndent t p = ((splitInclusive t).map (applyLine p)).flatten := by
+    applyBaseIndent t p [] = ((splitInclusive t).map (applyLine p)).flatten := by
   have : p.isEmpty = false := by cases p <;> simp_all
   simp only [applyBaseIndent, this, mapLines_eq, Bool.false_eq_true, if_false]; rfl
 
@@ -502,17 +508,47 @@ theorem nonBlank_applyLine (p l : Txt) (hp : ∀ b ∈ p, isBlank b = true) :
   · rw [nonBlank_append, nonBlank_append, nonBlank_of_blank p hp, List.nil_append, ← nonBlank_append,
       body_append_ending]
 
-theorem nonBlank_stripBaseIndent (t p : Txt) (hp : ∀ b ∈ p, isBlank b = true) :
-    nonBlank (stripBaseIndent t p) = nonBlank t := by
-  rw [stripBaseIndent_eq, nonBlank_flatten_map _ _ (fun l _ => nonBlank_stripLine p l hp),
-    flatten_splitInclusive]
+theorem nonBlank_mapLinesFrom (keep : List Nat) (f : Txt → Txt → Txt) (off : Nat) (ls : List Txt)
+    (h : ∀ l ∈ ls, nonBlank (f (splitLineEnding l).1 (splitLineEnding l).2) = nonBlank l) :
+    nonBlank (mapLinesFrom keep f off ls) = nonBlank ls.flatten := by
+  induction ls generalizing off with
+  | nil => rfl
+  | cons l ls ih =>
+    simp only [mapLinesFrom, List.flatten_cons, nonBlank_append]
+    rw [ih _ (fun l' hl' => h l' (List.mem_cons_of_mem _ hl'))]
+    split
+    · rfl
+    · rw [h l List.mem_cons_self]
 
-theorem nonBlank_applyBaseIndent (t p : Txt) (hp : ∀ b ∈ p, isBlank b = true) :
-    nonBlank (applyBaseIndent t p) = nonBlank t := by
+/-- if every line start is kept, nothing changes -/
+theorem mapLinesFrom_keep_all (keep : List Nat) (f : Txt → Txt → Txt) (off : Nat) (ls : List Txt)
+    (h : ∀ pre l post, ls = pre ++ l :: post → keep.contains (off + pre.flatten.length) = true) :
+    mapLinesFrom keep f off ls = ls.flatten := by
+  induction ls generalizing off with
+  | nil => rfl
+  | cons l ls ih =>
+    simp only [mapLinesFrom, List.flatten_cons]
+    have h0 : keep.contains off = true := by
+      have := h [] l ls rfl
+      simpa using this
+    rw [if_pos h0, ih]
+    intro pre l' post hp
+    have := h (l :: pre) l' post (by simp [hp])
+    simpa [Nat.add_assoc] using this
+
+theorem nonBlank_stripBaseIndent (t p : Txt) (keep : List Nat) (hp : ∀ b ∈ p, isBlank b = true) :
+    nonBlank (stripBaseIndent t p keep) = nonBlank t := by
+  unfold stripBaseIndent mapLines
+  rw [nonBlank_mapLinesFrom _ _ _ _ (fun l _ => nonBlank_stripLine p l hp), flatten_splitInclusive]
+
+theorem nonBlank_applyBaseIndent (t p : Txt) (keep : List Nat) (hp : ∀ b ∈ p, isBlank b = true) :
+    nonBlank (applyBaseIndent t p keep) = nonBlank t := by
   by_cases h : p = []
   · subst h; simp [applyBaseIndent]
-  · rw [applyBaseIndent_eq t p h, nonBlank_flatten_map _ _ (fun l _ => nonBlank_applyLine p l hp),
-      flatten_splitInclusive]
+  · have hpe : p.isEmpty = false := by cases p <;> simp_all
+    unfold applyBaseIndent mapLines
+    simp only [hpe, Bool.false_eq_true, if_false]
+    rw [nonBlank_mapLinesFrom _ _ _ _ (fun l _ => nonBlank_applyLine p l hp), flatten_splitInclusive]
 
 end RangeText
 
